@@ -119,7 +119,14 @@ pub fn oracle(case: &[u8], obs: &mut Obs) -> Result<(), Fail> {
     ensure!(want_f64.map(f64::to_bits) == got.map(f64::to_bits), sig_class("f64"), "from_slice::<f64>({:?}) = {:?}, expected {:?}", lit, got, want_f64);
     let want_f32 = want_f64.map(|f| f as f32);
     let got = sonic_rs::from_str::<f32>(lit).ok();
-    ensure!(want_f32.map(f32::to_bits) == got.map(f32::to_bits), sig_class("f32"), "from_str::<f32>({:?}) = {:?}, expected {:?} (f64 result narrowed once)", lit, got, want_f32);
+    // an integer literal within u64/i64 is handed over as that exact integer; narrowing the exact integer
+    // once is as good as narrowing its f64 value once (they differ when the integer is a tie of two doubles)
+    let alt_f32: Option<f32> = match class {
+        NumClass::U64(u) => Some(u as f32),
+        NumClass::I64(i) => Some(i as f32),
+        _ => None,
+    };
+    ensure!(want_f32.map(f32::to_bits) == got.map(f32::to_bits) || (alt_f32.is_some() && alt_f32.map(f32::to_bits) == got.map(f32::to_bits)), sig_class("f32"), "from_str::<f32>({:?}) = {:?}, expected {:?} (f64 result narrowed once{})", lit, got, want_f32, alt_f32.map(|a| format!(", or the exact integer narrowed once: {a:?}")).unwrap_or_default());
 
     // --- Number and Value classification
     let check_number = |ctx: &'static str, n: Option<Number>| -> Result<(), Fail> {
@@ -272,6 +279,29 @@ fn perturbations(mid: &str, emit: &mut dyn FnMut(&[u8]) -> bool) -> bool {
         let s = format!("{mid}{ext}");
         if !emit(s.as_bytes()) {
             return false;
+        }
+    }
+    // an integer-valued midpoint (large binary exponent): the same value spelt with an all-zero
+    // fraction, a zero exponent, or a fraction that only matters as a sticky bit
+    if let Some(mid) = mid.strip_suffix(".0") {
+        for ext in ["", ".0", ".000000", ".0e0", "e0", ".0E+0", ".00000000000000000000000000001", ".0e-0", "E+00"] {
+            let s = format!("{mid}{ext}");
+            if !emit(s.as_bytes()) {
+                return false;
+            }
+        }
+        let mut v = mid.as_bytes().to_vec();
+        if let Some(l) = v.last_mut() {
+            if *l > b'0' {
+                *l -= 1;
+                for ext in [".0", ".99999", ".0e0"] {
+                    let mut w = v.clone();
+                    w.extend_from_slice(ext.as_bytes());
+                    if !emit(&w) {
+                        return false;
+                    }
+                }
+            }
         }
     }
     // last digit -1 (below the midpoint)
@@ -436,6 +466,40 @@ pub fn run(ctx: &Ctx) {
             for e in ["1e1000", "1e-1000", "1e99999", "1e-99999", "0e99999", "1e2147483647", "1e-2147483648", "1e4294967296", "1e18446744073709551616", "0.0e-99999999999999999999", "1E+0000000000000000000000000000000000001", "1e000000400"] {
                 if !emit(e.as_bytes()) {
                     return;
+                }
+            }
+        }
+    });
+
+    // (3b) significands of every digit count 1..=25 against exponents that put the value next to the
+    // overflow and underflow limits (every fast path has its own exponent guard)
+    ctx.sweep(&s, true, &|shard, n, emit| {
+        let mut k = 0usize;
+        for nd in 1usize..=25 {
+            for pat in 0..5u8 {
+                k += 1;
+                if k % n != shard {
+                    continue;
+                }
+                let full = match pat {
+                    0 => "1797693134862315708145274237317043567980705675258449965989174768".to_string(),
+                    1 => "9".repeat(64),
+                    2 => format!("1{}", "0".repeat(63)),
+                    3 => "1797693134862315807937289714053034150799341327100378269361737789".to_string(),
+                    _ => "4940656458412465441765687928682213723650598026143247644255856825".to_string(),
+                };
+                let m = &full[..nd];
+                // value ~ 0.m x 10^(nd + e): overflow limit at nd + e = 309, underflow at about -323
+                for target in (300i32..=312).chain(-330..=-318) {
+                    let e = target - nd as i32;
+                    for f in [format!("{m}e{e}"), format!("-{m}E{e:+}"), format!("{m}.0e{e}"), format!("{}.{}e{}", &m[..1], &m[1..], e + nd as i32 - 1)] {
+                        if f.ends_with('.') || f.contains(".e") {
+                            continue;
+                        }
+                        if !emit(f.as_bytes()) {
+                            return;
+                        }
+                    }
                 }
             }
         }
